@@ -12,7 +12,7 @@ import sqlglot
 from sqlglot import Dialect, exp
 from sqlglot.helper import first, merge_ranges, while_changing
 from sqlglot.optimizer.annotate_types import TypeAnnotator
-from sqlglot.optimizer.scope import find_all_in_scope, walk_in_scope
+from sqlglot.optimizer.scope import find_all_in_scope
 from sqlglot.schema import ensure_schema
 
 
@@ -177,6 +177,14 @@ def simplify_parens(expression: exp.Expr, dialect: DialectType) -> exp.Expr:
     return expression
 
 
+def _conjuncts(expression: exp.Expr) -> t.Iterator[exp.Expr]:
+    for node in expression.flatten():
+        if isinstance(node, exp.And):
+            yield from _conjuncts(node)
+        else:
+            yield node
+
+
 def propagate_constants(expression, root=True):
     """
     Propagate constants for conjunctions in DNF:
@@ -193,7 +201,9 @@ def propagate_constants(expression, root=True):
         and sqlglot.optimizer.normalize.normalized(expression, dnf=True)
     ):
         constant_mapping = {}
-        for expr in walk_in_scope(expression, prune=lambda node: isinstance(node, exp.If)):
+        # Only top-level conjuncts state facts about the row; an equality nested in NOT, COALESCE,
+        # IS NULL, etc. does not constrain the column and must not be propagated.
+        for expr in _conjuncts(expression):
             if isinstance(expr, exp.EQ):
                 l, r = expr.left, expr.right
 
